@@ -187,7 +187,7 @@ def h_wkb(I, job):
     rm = I.new_obj(4 * max(len(rings), 1), 'rings', 'heap'); km = I.new_obj(max(len(rings), 1), 'kinds', 'heap')
     for r in range(len(rings)): I.store(rm + 4 * r, i32, rings[r]); I.store(km + r, i8, kinds[r])
     out = I.new_obj(1024, 'wkb', 'heap'); ol = I.new_obj(4, 'ol', 'heap')
-    rc = I.concretize(I.call('@verif_wkb', [what, un, dr, ewkb, hexm, xy, n, rm, km, len(rings), out, 1024, ol]), 'rc'); I.observe('rc', rc)
+    rc = I.concretize(I.call('@verif_wkb', [what, un, dr, ewkb | (2 if job.get('history') else 0), hexm, xy, n, rm, km, len(rings), out, 1024, ol]), 'rc'); I.observe('rc', rc)
     if rc != want_rc: raise Finding('verdict', 'WKB factory returns %s, reference says %s' % (rc, want_rc))
     if rc == 0:
         ln = I.concretize(I.load(ol, i32), 'len'); I.observe('len', ln)
@@ -324,9 +324,10 @@ def harnesses(tier):
                       bounds='<= 4 rings of <= 3 points, <= 2 symbolic locations per job'))
     wj = [dict(what=0, un=0, dir=0, n=1, ewkb=e, hex=h) for e in (0, 1) for h in (0, 1)] + [dict(what=1, un=1, dir=d, n=3, ewkb=e, hex=0) for d in (0, 1) for e in (0, 1)] + \
          [dict(what=1, un=0, dir=0, n=2, ewkb=1, hex=1), dict(what=2, un=1, dir=0, n=4, ewkb=0, hex=0)] + \
+         [dict(what=1, un=1, dir=0, n=2, ewkb=0, hex=0, history=1), dict(what=2, un=1, dir=0, n=4, ewkb=1, hex=0, history=1), dict(what=3, un=1, dir=0, n=0, ewkb=0, hex=0, history=1, rings=[3], kinds=[0], sym={(0, 1)})] + \
          [dict(what=3, un=1, dir=0, n=0, ewkb=e, hex=0, rings=[3, 3, 3], kinds=[0, 1, 0], sym={(0, 1), (1, 2)}) for e in (0, 1)]
     hs.append(Harness('wkb', 'geom', h_wkb, jobs=wj, opaque_fp=True, reach=('end', 'ok'),
-                      desc='real WKBFactoryImpl (WKB / EWKB, binary / hex) read back by an independent WKB reader: type words, SRID, back-patched counts equal the encoded elements, coordinates in order',
+                      desc='real WKBFactoryImpl (WKB / EWKB, binary / hex) read back by an independent WKB reader, also on a factory object that has rejected degenerate objects before: type words, SRID, back-patched counts equal the encoded elements, coordinates in order',
                       bounds='ways of <= 4 nodes, one area with 3 rings', wall=900))
     hs.append(Harness('double2string', 'geom', h_double2string, jobs=[dict(prec=p) for p in ((0, 1, 7, 17) if q else range(0, 18))], setup=install_snprintf, reach=('end',),
                       desc='double2string under the C11 contract of snprintf("%.*f"): arbitrary text of the right shape and arbitrary reported length (1 .. longest text of a finite double): output = the text with trailing zeros removed only behind a decimal point; a reported length beyond the internal buffer must not be used',
